@@ -201,18 +201,30 @@ Definition rife_apply (feats : list feat) (ivs : list (nat * nat)) (p : panel)
 
 Fixpoint cumsum_from (acc : Q) (s : series) : series :=
   match s with [] => [] | x :: t => (acc + x) :: cumsum_from (acc + x) t end.
-Inductive sfun := SAffine (a b : Q) | SCumsum | SReverse.
+(* s[::2] *)
+Fixpoint stride2 (s : series) : series :=
+  match s with
+  | x :: _ :: t => x :: stride2 t
+  | l => l
+  end.
+(* wrapped series transformers used by the cases: some compute new values, some return their
+   input or a part of it (identity, head slice, stride, reversal) *)
+Inductive sfun := SAffine (a b : Q) | SCumsum | SReverse | SIdent | SHead (k : nat) | SStride2.
 Definition sfun_apply (f : sfun) (s : series) : series :=
   match f with
   | SAffine a b => map (fun x => a * x + b) s
   | SCumsum => cumsum_from 0 s
   | SReverse => rev s
+  | SIdent => s
+  | SHead k => firstn k s
+  | SStride2 => stride2 s
   end.
-Inductive pfun := PMean | PWeighted.
+Inductive pfun := PMean | PWeighted | PFirst.
 Definition pfun_apply (g : pfun) (s : series) : Q :=
   match g with
   | PMean => qmean s
   | PWeighted => qsum (map2 Qmult s (time_axis (length s)))
+  | PFirst => qnth s 0
   end.
 Definition row_s2s (f : sfun) (p : panel) : res panel :=
   if equal_length p then Ok (map_cells (sfun_apply f) p) else Err.
